@@ -233,6 +233,8 @@ def run_case(case):
             add("sibling_with_swapped_grid_kinds")
     try:
         model = dsl.build_lcm_model(desc)
+        if case.get("index", 1) % 6 == 1:
+            pipeline.run_alias_sibling(model, counters=cnt)
         f, _ = pipeline.get_lcm_function(model, "solve", jit=True)
     except Exception as e:  # noqa: BLE001
         res["violations"].append({"key": pipeline.exc_key(e, "build"), "what": pipeline.exc_text(e)})
@@ -241,9 +243,17 @@ def run_case(case):
         return res
     nontrivial = False
     outs = []
+    p_obj = None
     for p, s, _, _ in refsols:
         try:
-            out = pipeline.to_np_list(f(dsl.lcm_params(p)))
+            if case.get("index", 0) % 2 == 0:
+                # ONE params mapping object, edited in place between the calls
+                p_obj = dsl.lcm_params(p) if p_obj is None else pipeline.update_params_in_place(p_obj, dsl.lcm_params(p))
+                if p_obj is not None and len(outs) >= 1:
+                    add("calls_with_params_edited_in_place")
+                out = pipeline.to_np_list(f(p_obj))
+            else:
+                out = pipeline.to_np_list(f(dsl.lcm_params(p)))
         except Exception as e:  # noqa: BLE001
             res["violations"].append({"key": pipeline.exc_key(e, "solve"), "what": pipeline.exc_text(e)})
             continue
@@ -277,6 +287,33 @@ def run_case(case):
             if exp.size > 1 and np.ptp(exp[np.isfinite(exp)]) > 0 if np.isfinite(exp).any() else False:
                 if ref.T >= 2 or any(i["binding"] for i in s["info"]):
                     nontrivial = True
+    # ---- the same params mapping edited in place in ONE nested leaf (beta untouched), same function
+    if p_obj is not None and refsols and case["kind"] == "generic":
+        try:
+            import copy
+
+            p3 = copy.deepcopy(refsols[-1][0])
+            frozen = {tuple(x) for x in desc.get("frozen_params", ())}
+            leaves = [(fn, pn) for fn, d in p3.items() if isinstance(d, dict) and fn != "shocks" for pn, v in d.items()
+                      if isinstance(v, float) and (fn, pn) not in frozen]
+            if leaves:
+                fn, pn = leaves[int(rng.integers(0, len(leaves)))]
+                p3[fn][pn] = round(p3[fn][pn] * 1.17 + 0.03, 4)
+                s3 = ref.solve(p3)
+                if ref.supported(s3, allow_no_choice_last=allow_nc)[0]:
+                    p_obj[fn][pn] = dsl.lcm_params(p3)[fn][pn]  # nothing else is touched
+                    out3 = pipeline.to_np_list(f(p_obj))
+                    add("calls_with_one_nested_leaf_edited_in_place")
+                    for t in range(min(len(out3), ref.T)):
+                        exp = ref.to_lcm_layout(s3["V"][t], t)
+                        if out3[t].shape != exp.shape or maxdev(out3[t], exp) > tol:
+                            res["violations"].append({"key": "value_mismatch_after_in_place_edit", "what": f"params[{fn!r}][{pn!r}] edited in place on the mapping used for the previous call, same function object: period {t} differs from the reference for the edited parameters (max rel dev {maxdev(out3[t], exp) if out3[t].shape == exp.shape else float('nan'):.3g})"})
+                            break
+        except Exception as e:  # noqa: BLE001
+            try:
+                res["violations"].append({"key": pipeline.exc_key(e, "solve_after_in_place_edit"), "what": pipeline.exc_text(e)})
+            except pipeline.HarnessError:
+                add("in_place_edit_harness_skip")
     # ------------------------------------------------------------ jit=False + W2
     if case.get("jit_false") and refsols:
         p, s, _, _ = refsols[0]
